@@ -10,6 +10,7 @@ from topsim.core.buffer import Buffer, HotBuffer, ColdBuffer
 from topsim.core.planner import Planner, WorkflowPlan
 from topsim.core.instrument import Observation
 from topsim.user.plan.batch_planning import BatchPlanning
+import topsim.user.plan.batch_planning as BP
 from topsim.algorithms.planning import Planning
 
 PIN = {}
@@ -21,7 +22,7 @@ META = {
                'C14.edge insertion order': 'ascending pairs, and reversed for 3 nodes', 'C14.labels': 'node labels permuted (identity + reversed quick; all permutations thorough)',
                'C14.comp/task_data/edge volumes': 'unbounded ints', 'C14.names': NAMES, 'C14.clock': [0, 7]},
     'outside_bounds': ['DAGs with more than 4 nodes', 'non-integer node labels', 'the SHADOW static planner (not installed)'],
-    'stubs': ['BatchPlanning._workflow_to_nx returns the symbolic nx.DiGraph instead of reading a JSON file (E5)'],
+    'stubs': ["E5: networkx's node_link_graph, as seen by batch_planning, returns a fresh copy of the symbolic nx.DiGraph; the real _workflow_to_nx / open / json.load run on a placeholder file"],
     'assumptions': ['workflow graph is a DAG with comp on every node and transfer_data on every edge'],
 }
 PAIRS4 = [(i, j) for i in range(4) for j in range(i + 1, 4)]
@@ -51,11 +52,69 @@ def plan_tag(n, labels, bits, comps, has_td, tds, vols, name_k, clock):
     if clock:
         env.run(until=clock)
     model = BatchPlanning('batch')
-    model._workflow_to_nx = lambda wf: g
+    CURRENT[0] = lambda: build_graph(n, labels, bits, comps, has_td, tds, vols)    # what "parsing the workflow file" yields: a fresh graph object every time (E5)
+    BP.nx = NXSHIM
     buf = Buffer(env, None, None, FakeCfg(hot=HotBuffer(100, 10), cold=ColdBuffer(100, 10)))
     name = pick(NAMES, name_k)
-    obs = Observation(name, 0, 2, 1, 'wf.json', 3)
-    plan = Planner(env, None, model, None).run(obs, buf, 2)
+    obs = Observation(name, 0, 2, 1, wf_file(), 3)
+    planner = Planner(env, None, model, None)
+    try:
+        plan = planner.run(obs, buf, 2)
+        t = check_plan(plan, g, n, labels, comps, has_td, tds, name)
+        if t:
+            return t
+        # the same planner plans a second observation from the same workflow file; both plans mirror the workflow
+        env.run(until=env.now + 3)
+        try:
+            plan2 = planner.run(Observation('zz', 0, 2, 1, wf_file(), 3), buf, 2)
+            gids = [t.graph_id for t in plan2.tasks]
+        except Exception as ex:
+            return f'C14/second-plan-from-the-same-workflow-raises/{type(ex).__name__}'
+        if len(plan2.tasks) != n or any(not isinstance(x, int) for x in gids) or sorted(gids) != sorted(labels[:n]):
+            return 'C14/second-plan-from-the-same-workflow-differs'
+        for t2 in plan2.tasks:
+            if 'zz' not in t2.id or name in t2.id.replace('zz', ''):
+                return 'C14/second-plan-from-the-same-workflow-differs'
+        t = check_plan(plan, g, n, labels, comps, has_td, tds, name)
+        if t:
+            return t + '/after-a-second-plan'
+        return None
+    finally:
+        BP.nx = nx
+
+
+class _RW:
+    @staticmethod
+    def node_link_graph(data, **kw):
+        return CURRENT[0]()
+
+
+class _NxShim:
+    """networkx as seen by topsim.user.plan.batch_planning: everything real except reading node-link data, which yields a
+    fresh copy of the harness's symbolic graph (the real _workflow_to_nx, file open and json.load stay in the loop)"""
+    readwrite = _RW
+
+    def __getattr__(self, name):
+        return getattr(nx, name)
+
+
+NXSHIM = _NxShim()
+CURRENT = [None]
+
+
+def wf_file():
+    import os
+    d = '/verif/.work/c14'
+    p = d + '/wf.json'
+    if not os.path.exists(p):
+        os.makedirs(d, exist_ok=True)
+        tmp = p + f'.{os.getpid()}'
+        open(tmp, 'w').write('{"graph": {}}')
+        os.replace(tmp, p)
+    return p
+
+
+def check_plan(plan, g, n, labels, comps, has_td, tds, name):
     tasks = plan.tasks
     if len(tasks) != n:
         return 'C14/task-count'
@@ -101,10 +160,13 @@ def plan_tag(n, labels, bits, comps, has_td, tds, vols, name_k, clock):
             return 'C14/predecessor-query-disagrees-with-graph'
         if ss != sorted(v for (u, v) in want_edges if u == t.id):
             return 'C14/successor-query-disagrees-with-graph'
-    for t in tasks:
-        for p in plan.get_task_predecessors(t):
-            if t not in list(plan.get_task_successors(p)):
-                return 'C14/pred-succ-not-inverse'
+    try:
+        for t in tasks:
+            for p in plan.get_task_predecessors(t):
+                if t not in list(plan.get_task_successors(p)):
+                    return 'C14/pred-succ-not-inverse'
+    except nx.NetworkXError:
+        return 'C14/plan-graph-does-not-hold-its-own-tasks'
     return None
 
 
